@@ -7,6 +7,12 @@
 //! older generation of one key; every bit flip, truncation, extension, chunk
 //! swap, object swap / replacement and CBOR-level edit of a metadata
 //! document, each applied alone; after each one the whole read battery.
+//!
+//! Readers: a fresh instance (every site); an instance with a warm but stale
+//! cache entry for `a` (its previous commit, generation reclaimed by another
+//! instance's overwrite) reading, or copying and then reading the target;
+//! a fresh instance that copies / renames the touched keys and reads the
+//! targets (default and strict mode).
 
 use serde_json::json;
 use std::collections::{BTreeMap, HashSet};
